@@ -144,6 +144,9 @@ pub struct Plan {
     pub seed: u64,
     pub run: u64,
     pub custom_chain: bool,
+    /// bech32 prefix of the chain's addresses
+    #[serde(default = "default_prefix")]
+    pub prefix: String,
     /// twin-world run (C12 / C06): ops are mirrored in world 1
     pub twin: bool,
     pub accounts: Vec<(String, Vec<Coin>)>,
@@ -153,6 +156,10 @@ pub struct Plan {
     pub setup: Vec<Op>,
     pub ops: Vec<Op>,
     pub faults: Vec<((u32, u32), Fault)>,
+}
+
+pub fn default_prefix() -> String {
+    "cosmwasm".to_string()
 }
 
 impl Plan {
